@@ -288,8 +288,7 @@ Proof.
     assert (Hkv : c05_known TypeScript m g t1 = None /\ c05_known TypeScript m g t2 = None /\
                   match t1 with RSimple id => mem_str id g = false | _ => True end).
     { destruct t1;
-        try (match type of Hk' with match ?a with _ => _ end = None => destruct a eqn:E1; [discriminate|] end; auto).
-      all: fail. }
+        try (match type of Hk' with match ?a with _ => _ end = None => destruct a eqn:E1; [discriminate|] end; auto). }
     destruct Hkv as [Hk1 [Hk2 Hg]].
     eapply runs_bind with (a := erase g t1).
     { destruct t1; try exact (IHt1 Hd1 Hk1). rewrite Hg. exact (IHt1 Hd1 Hk1). }
